@@ -160,6 +160,8 @@ def jobs(tier, seed):
         js.append(dict(kind='e2e', name=e))
         js.append(dict(kind='e2e', name=e + '+robots'))
     js.append(dict(kind='e2e', name='sitemap'))
+    js.append(dict(kind='e2e', name='ftplink'))
+    js.append(dict(kind='e2e', name='ftplink+follow'))
     if seed:
         k = seed % len(js)
         js = js[k:] + js[:k]
@@ -397,11 +399,48 @@ def run_sitemap_e2e():
     return None, reqs
 
 
+def run_ftp_link_e2e(follow_ftp):
+    """An HTTP page links to FTP URLs on its own host and on another host.  Without
+    --follow-ftp no FTP server may be contacted at all; with it, only the start host's -
+    not even for the parent-directory listing that wpull uses to tell files from
+    directories."""
+    from vt.appharn import AppRun, ComboPeer
+    site = {'hosts': {'a.test': {'/dir/index.html': {
+        'links': ['ftp://f.test/pub/file.txt', 'ftp://a.test/pub/own.txt', '/dir/a.html',
+                  'ftp://f.test/pub/dir/']}, '/dir/a.html': {'links': []}},
+        'f.test': {}}}
+    script = dict(listing='-rw-r--r-- 1 u g 5 Jan 01 2020 own.txt\r\n'
+                          '-rw-r--r-- 1 u g 5 Jan 01 2020 file.txt\r\n', data='hello')
+    peer = ComboPeer(site, script)
+    argv = ['http://a.test/dir/index.html', '-r', '--no-robots', '--delete-after',
+            '--waitretry', '0', '--tries', '1', '--timeout', '5']
+    if follow_ftp:
+        argv.append('--follow-ftp')
+    out = AppRun(site, argv, Chooser(), early=False, peer=peer).run()
+    obs = [list(x) for x in peer.ftp_connections] + \
+        [l.decode('latin-1') for l in peer.ftp.lines]
+    if out['result'] != 'ok' or out['exc']:
+        return 'crawl failed: %s %s' % (out['result'], out['exc']), obs
+    for host, port in peer.ftp_connections:
+        if not follow_ftp:
+            return ('FTP server %s:%d contacted although FTP links are not to be followed '
+                    '(commands %s)' % (host, port,
+                                       [l.decode('latin-1') for l in peer.ftp.lines][-3:])), obs
+        if host != 'a.test':
+            return ('FTP server %s:%d contacted: host outside the permitted set (commands %s)'
+                    % (host, port, [l.decode('latin-1') for l in peer.ftp.lines][-3:])), obs
+    if follow_ftp and not any(l.startswith(b'RETR') for l in peer.ftp.lines):
+        return 'the in-scope FTP link was not fetched (vacuous scenario)', obs
+    return None, obs
+
+
 def run_e2e(name, chooser):
     from vt.appharn import AppRun
     from vt.checks import c01
     if name == 'sitemap':
         return run_sitemap_e2e()
+    if name.startswith('ftplink'):
+        return run_ftp_link_e2e(name.endswith('+follow'))
     robots = name.endswith('+robots')
     argv_o, ro, code, strong = E2E[name.split('+')[0]]
     site = _site(code)
